@@ -1,4 +1,4 @@
-(* Run/C09.v – correspondence engine 901 for C09 (value semantics).
+(* Run/C09.v – correspondence engines 901 (histories) and 902 (classes that are values in the model) for C09.
    A case is a HISTORY: initial transactions (values) and a list of operations, each an
    integer-tagged list (see [hop_of_val]); objects are named by handle + path.
    model_obs : the history executed on the heap model (Model/Heap.v, [step]) with the wire
@@ -268,6 +268,18 @@ Definition run_C09 (op : Z) (args : list val) : val :=
           VList [model_history init ops;
                  if forallb (fun mt => rng_tx (snd mt)) init && forallb rng_hop ops && negb (mentions_not_covered spec)
                  then judge impl spec else unconstrained]
+      | _, _ => bad_args end
+  | 2, [hv; VList tv; VInt z; impl] =>
+      (* classes that are plain VALUES in the model (CBlock built over MUTABLE transactions,
+         its header, CTxWitness / CTxInWitness / CScriptWitness): IMPL reports
+         [serialisation unchanged by later edits of the transactions; cached GetHash = recomputed
+          before and after; hash() = recomputed; #assignments, #deletions not answered by
+          AttributeError] – a value cannot change, so the expected observation is constant *)
+      match header_of_val hv, opt_map tx_of_val tv with
+      | Some hd, Some txs =>
+          let expected := VList [VInt 1; VInt 1; VInt 1; VInt 0; VInt 0] in
+          VList [expected;
+                 if wf_headerb hd && forallb rng_tx txs && in_ib 4 z then judge impl expected else unconstrained]
       | _, _ => bad_args end
   | _, _ => bad_args
   end.
